@@ -131,7 +131,7 @@ LIT_OVERFLOW_CANCEL = dict(   # cancel and finish parked in the overflow list, r
 LIT_OVERFLOW_FINISH = dict(   # two roots finish while the queue is full; recovery interleaved with cycles
     threads=[1], born=[1], K=2, MaxCycles=3,
     prog={1: [S("root", tr=1, smp=True), S("root", tr=2, smp=True), S("sevent", h=101), S("drop", h=101), S("drop", h=102),
-              S("root", tr=1, smp=True), S("sevent", h=103), S("drop", h=103), S("exit")]})
+              S("root", tr=1, smp=True), S("sevent", h=104), S("drop", h=104), S("exit")]})
 INSTANCES.update({
     "lit_overflow_cancel": (LIT_OVERFLOW_CANCEL, "edge", {}),
     "lit_overflow_finish": (LIT_OVERFLOW_FINISH, "edge", {}),
@@ -172,6 +172,8 @@ INSTANCES.update({
     "time_tree4": (dict(INSTANCES["tree4"][0], op_sleep_us=150), "terminal", {}),
     "time_lc5": (dict(INSTANCES["lc5"][0], op_sleep_us=150), "terminal", {}),
     "time_att4": (dict(INSTANCES["att4"][0], op_sleep_us=150), "terminal", {}),
+    # spans whose parents are partly in unsampled traces (seeded S60: the end is stamped only when every item is sampled)
+    "time_smp4": (dict(INSTANCES["tree4"][0], op_sleep_us=150, smp=[True, False], menu=["root", "child", "child2", "drop"]), "terminal", {}),
 })
 
 # ---------------- adapters (C13, C14)
@@ -359,4 +361,13 @@ INSTANCES.update({
                              MaxOps=5, MaxPolls=3, MaxCycles=2), "terminal", {}),
     "poll_hold_d": (pollinst(["fut", "snk"], inner=["none", "hold", "ev"], menu=["root", "fnew", "fpoll", "fdrop", "drop"], MaxSpans=3,
                              MaxOps=5, MaxPolls=3, MaxCycles=1), "terminal", {}),
+})
+
+
+# a captured set with events and properties under two parents whose traces are processed in the same cycle
+# (seeded S58: attachments mounted across the copies)
+INSTANCES.update({
+    "lc_multi_p": (dict(seq(["lenter", "lexit", "levent", "lprops", "lccollect", "pushc"], MaxOps=6, MaxSpans=2, MaxRoots=2, MaxTraces=2, MaxLocal=2,
+                            MaxAtt=2, MaxLs=1, MaxScopes=1, MaxCycles=1),
+                        prefix=True, prog={1: [S("root", tr=1, smp=True), S("root", tr=2, smp=True), S("lcstart")]}), "terminal", {}),
 })
